@@ -15,6 +15,9 @@ HOOK_COMMITS = []
 SPEC_DIRS = {"C01": "RaceDriver", "C07": "RaceDriver", "C09": "RaceDriver", "C06": "Throughput", "C15": "BranchMatch"}
 
 
+MORE_SPEC_DIRS = {"C09": ["TrackPrep"], "C01": ["ActorSem"]}
+
+
 def check(pid, text, note, technique, engine="tlc", design_ref=None, spec=None):
     CHECKS[pid] = dict(text=text, note=note, technique=technique, engine=engine, design_ref=design_ref or ("DESIGN.md §4 " + pid))
     if spec:
@@ -22,7 +25,7 @@ def check(pid, text, note, technique, engine="tlc", design_ref=None, spec=None):
 
 
 def claimed_spec_dirs():
-    return sorted({SPEC_DIRS[p] for p in CHECKS if p in SPEC_DIRS})
+    return sorted({SPEC_DIRS[p] for p in CHECKS if p in SPEC_DIRS} | {d for p in CHECKS for d in MORE_SPEC_DIRS.get(p, ())})
 
 
 check(
@@ -51,7 +54,7 @@ check(
     "C01",
     "TLC model-checks RaceDriver.tla (coordinator, workers, executors, FIFO channels, untimed wake-ups; one action per message handler / "
     "executor step of driver.py) for the barrier, exactly-once, complete-once, completed-by and no-stall invariants over every interleaving of a "
-    "scenario family, and <>Complete under weak fairness; TLC behaviours and the counterexamples of the pinned model variants are replayed into the "
+    "scenario family (also: the element ends as soon as the named task is done - CompletedByEnds; no failure is reported in a fault-free race - NoSpuriousFailure), and <>Complete under weak fairness; TLC behaviours and the counterexamples of the pinned model variants are replayed into the "
     "REAL DriverActor/Driver/Worker/AsyncIoAdapter/AsyncExecutor under a simulated actor system with virtual time; every recorded execution "
     "(also seeded random schedules, clock offsets, non-test mode) is validated by TLC against TraceRaceDriver.tla (property formulas on the "
     "recorded state = L1, step conformance = L2).",
@@ -78,9 +81,14 @@ check(
     "fault per behaviour at every enabled point: request fails fatally (on-error=abort / fatal connection error / runner raises), parameter source raises, the driver's metrics "
     "store fails during periodic or join-point post-processing, race control's bulk_add fails, a worker dies, the user cancels. TLC checks FaultNeverSuccess, NoResultsOnFailure, "
     "CancelNoResults over all interleavings and FaultReported (failure reaches race control) as liveness under weak fairness; TLC behaviours and the counterexamples of the "
-    "pinned/known-deviation variants are replayed into the real actors; every recorded execution is validated by TLC (L1 clauses on race.json / summary / first answer, L2 steps).",
-    "Bounds: 2 workers, <= 3 clients, <= 2 elements, one fault. Track preparation is a stub (its failure path is not modelled). 'Bounded time' = bounded number of hops under fair "
-    "scheduling, each hop at most one wake-up interval. Known finding F16 (race control's own store failure overtaken by completion) is re-observed and listed.",
+    "pinned/known-deviation variants are replayed into the real actors; every recorded execution is validated by TLC (L1 clauses on race.json / summary / first answer, L2 steps). "
+    "Prep leg: TrackPrep.tla models DriverActor.prepare_track / TrackPreparationActor / TaskExecutionActor (barriers, resume, no_retry answers, PoisonMessage path) with one fault per "
+    "behaviour (a task raises at any processor/position/host, on_prepare_track raises, load_track_plugins raises, a task failure combined with a failing Driver.close()); TLC checks "
+    "FailureNeverCompletes, FaultNeverSuccess, NoResultsOnFailure, NoStall and FaultReported/Completes under fairness; TLC behaviours and random schedules run on the REAL preparation actors "
+    "and BenchmarkActor and every step is validated by TLC against TraceTrackPrep.tla.",
+    "Bounds: 2 workers, <= 3 clients, <= 2 elements, one fault; prep leg: 1-2 hosts x 1-2 executors, 1-2 processors of 0-3 tasks (plus the 3 required no-op processors). 'Bounded time' = "
+    "bounded number of hops under fair scheduling, each hop at most one wake-up interval. Known finding F16 (race control's own store failure overtaken by completion) is re-observed and "
+    "listed. PrepCompleteOnlyWhenAllDone is stronger than C09 and only reported as drift. The death of a preparation actor is not covered (C09 names worker processes).",
     "TLA+ actor-protocol spec with fault actions + TLC safety and liveness checking; replay of TLC behaviours/counterexamples into the real actors; TLC trace validation",
     engine="tlc+simactor",
 )
